@@ -176,6 +176,20 @@ impl<K: Eq + Hash + Clone, V: Clone> MapEntry<'_, K, V> {
         let mut g = m.m.lock().unwrap();
         Ref(g.entry(k).or_insert_with(f).clone())
     }
+    /// unconditional set (mirrors dashmap's entry().insert())
+    pub fn insert(self, v: V) -> Ref<V> {
+        let MapEntry::Slot(m, k) = self;
+        let mut g = m.m.lock().unwrap();
+        let _ = g.insert(k, v.clone());
+        Ref(v)
+    }
+    pub fn and_modify<F: FnOnce(&mut V)>(self, f: F) -> Self {
+        let MapEntry::Slot(m, k) = self;
+        if let Some(v) = m.m.lock().unwrap().get_mut(&k) {
+            f(v);
+        }
+        MapEntry::Slot(m, k)
+    }
 }
 
 impl<K: Eq + Hash + Clone, V: Clone> DashMap<K, V> {
@@ -202,5 +216,30 @@ impl<K: Eq + Hash + Clone, V: Clone> DashMap<K, V> {
     }
     pub fn entry(&self, k: K) -> MapEntry<'_, K, V> {
         MapEntry::Slot(self, k)
+    }
+    // (not used by the imported sources today; present so that a changed source that reaches for
+    // them still builds and is explored instead of failing the build)
+    pub fn contains_key<Q: ?Sized + Eq + Hash>(&self, k: &Q) -> bool
+    where
+        K: Borrow<Q>,
+    {
+        self.m.lock().unwrap().contains_key(k)
+    }
+    pub fn len(&self) -> usize {
+        self.m.lock().unwrap().len()
+    }
+    pub fn is_empty(&self) -> bool {
+        self.m.lock().unwrap().is_empty()
+    }
+    pub fn clear(&self) {
+        self.m.lock().unwrap().clear();
+    }
+    pub fn remove_if<Q: ?Sized + Eq + Hash>(&self, k: &Q, f: impl FnOnce(&K, &V) -> bool) -> Option<(K, V)>
+    where
+        K: Borrow<Q>,
+    {
+        let mut g = self.m.lock().unwrap();
+        let hit = g.get_key_value(k).is_some_and(|(kk, v)| f(kk, v));
+        if hit { g.remove_entry(k) } else { None }
     }
 }
